@@ -740,6 +740,10 @@ pub fn subjects<T: Num>() -> Vec<Subject> {
                     }),
                 ))
             });
+            if task == Task::Multi {
+                // also fitted on the class-size family (4..7 classes, every size vector)
+                edge(&mut v, &["class-counts"], false);
+            }
             subj!(v, format!("categorical_nb[{},alpha={}]", tn, alpha), "categorical_nb", task, Domain::Counts, 1, false, |d| {
                 let p = CategoricalNBParameters::default().with_alpha(t::<T>(alpha));
                 let m = CategoricalNB::fit(&xm::<T>(d), &yv::<T>(d, task), p).map_err(es)?;
@@ -752,6 +756,9 @@ pub fn subjects<T: Num>() -> Vec<Subject> {
                     }),
                 ))
             });
+            if task == Task::Multi {
+                edge(&mut v, &["class-counts"], false);
+            }
         }
     }
 
